@@ -184,7 +184,7 @@ func init() {
 	checks["C02"] = func(c *ctx) {
 		o := prog.DefaultOpts()
 		o.FallbackPct, o.PredPct = 5, 15
-		g := genPart(c, "C02", c.pick(70, 2000), 0, o, 3, "ok,conc", c.pick(6, 12), false,
+		g := genPart(c, "C02", c.pick(70, 2000), 0, o, 3, "ok,conc,nest", c.pick(6, 12), false,
 			"a flow with at least 3 functions, one of them with at least 2 inputs, executed without injected failures (each abstract flow is printed in 3 listing/option orders; all must match the same reference); 'conc': 4, 8 or 32 simultaneous executions of the same directive from as many goroutines, each with its own tokens, each judged on its own")
 		both(c, nil, g)
 	}
@@ -192,7 +192,7 @@ func init() {
 		s := schedC03(c)
 		o := prog.DefaultOpts()
 		o.Wide = c.pick(40, 300)
-		g := genPart(c, "C03", c.pick(40, 400), c.pick(40, 400), o, 1, "ok,fault,wide,widegx,goexit", c.pick(5, 12), false,
+		g := genPart(c, "C03", c.pick(40, 400), c.pick(40, 400), o, 1, "ok,fault,wide,widegx,goexit,nest", c.pick(5, 12), false,
 			"at least two user functions were in flight at once (exact in-flight counter in the stubs vs. the limit the directive was given, or max(GOMAXPROCS,4)); 'wide' programs: a Parallel or Flow of 6..25 independent functions, mostly without cff.Concurrency, every function held until as many are in flight as the limit allows plus 3 ms; 'widegx': the same after a third of the functions killed their goroutine with runtime.Goexit")
 		both(c, s, g)
 	}
@@ -200,7 +200,7 @@ func init() {
 		o := prog.DefaultOpts()
 		o.PredPct, o.FallbackPct = 35, 30
 		o.ParMatrix = true
-		g := genPart(c, "C04", c.pick(60, 1500), c.pick(60, 1500), o, 1, "panic,fault,one", c.pick(8, 14), false,
+		g := genPart(c, "C04", c.pick(60, 1500), c.pick(60, 1500), o, 1, "panic,fault,one,nest", c.pick(8, 14), false,
 			"some user function actually panicked (string, error, struct, int, nil-map write, index out of range) - task, predicate, parallel task, slice/map element function or End hook")
 		both(c, nil, g)
 	}
@@ -215,7 +215,7 @@ func init() {
 	checks["C06"] = func(c *ctx) {
 		s := schedC06(c)
 		o := prog.DefaultOpts()
-		g := genPart(c, "C06", c.pick(40, 500), c.pick(40, 500), o, 1, "ok,fault,panic,cancel,conc,goexit", c.pick(3, 8), false,
+		g := genPart(c, "C06", c.pick(40, 500), c.pick(40, 500), o, 1, "ok,fault,panic,cancel,conc,goexit,nest", c.pick(3, 8), false,
 			"at least one user function was called; after every execution the process must return to its goroutine baseline")
 		both(c, s, g)
 	}
@@ -263,7 +263,7 @@ func init() {
 		s := schedC12(c)
 		o := prog.DefaultOpts()
 		o.PredPct, o.FallbackPct, o.InstrPct = 35, 30, 50
-		g := genPart(c, "C12", c.pick(50, 400), c.pick(50, 400), o, 1, "ok,pred,fault,cancel,conc", c.pick(4, 12), true,
+		g := genPart(c, "C12", c.pick(50, 400), c.pick(50, 400), o, 1, "ok,pred,fault,cancel,conc,nest", c.pick(4, 12), true,
 			"any execution under the race detector in quiet mode (stubs share nothing; values only flow through generated plumbing)")
 		parts := map[string]map[string]interface{}{}
 		if s != nil {
